@@ -409,7 +409,7 @@ func (r *ChunkReader) findRootNode() error {
 		r.err = err
 		return err
 	}
-	if _, err := io.ReadFull(r.readSeeker, r.currNode[:4]); err != nil {
+	if err := r.readFull(r.currNode[:4]); err != nil {
 		r.err = err
 		return err
 	}
@@ -430,7 +430,7 @@ func (r *ChunkReader) findRootNode() error {
 		r.err = err
 		return err
 	}
-	if _, err := io.ReadFull(r.readSeeker, r.currNode[:1]); err != nil {
+	if err := r.readFull(r.currNode[:1]); err != nil {
 		r.err = err
 		return err
 	}
@@ -472,6 +472,18 @@ func (r *ChunkReader) tryRootNode(arity uint8, fromEnd bool) (found bool, ioErr 
 	return true, nil
 }
 
+// readFull is like io.ReadFull(r.readSeeker, p) except that io.EOF (which
+// means that the underlying file is shorter than r.CompressedSize says)
+// becomes io.ErrUnexpectedEOF. Callers of NextChunk (and of rac.Reader.Read)
+// take io.EOF to mean a clean end of the chunk stream.
+func (r *ChunkReader) readFull(p []byte) error {
+	_, err := io.ReadFull(r.readSeeker, p)
+	if err == io.EOF {
+		err = io.ErrUnexpectedEOF
+	}
+	return err
+}
+
 // load loads a node from the RAC file into r.currNode. It does not check that
 // the result is valid, and the caller should do so if it doesn't already know
 // that it is valid.
@@ -485,7 +497,7 @@ func (r *ChunkReader) load(cOffset int64, arity uint8) error {
 		r.err = err
 		return err
 	}
-	if _, err := io.ReadFull(r.readSeeker, r.currNode[:size]); err != nil {
+	if err := r.readFull(r.currNode[:size]); err != nil {
 		r.err = err
 		return err
 	}
@@ -504,7 +516,7 @@ func (r *ChunkReader) loadAndValidate(cOffset int64,
 		r.err = err
 		return err
 	}
-	if _, err := io.ReadFull(r.readSeeker, r.currNode[:4]); err != nil {
+	if err := r.readFull(r.currNode[:4]); err != nil {
 		r.err = err
 		return err
 	}
